@@ -338,6 +338,7 @@ def run(rep):
     # ---------------------------------------------------------------- T8 empty views
     rep.rule("T8 threshold_optimal, median_filter, detail::morph: every nth_channel_view call (which forms a reference to pixel (0,0)) is dominated by the test that the source view has pixels")
     R.nonempty_guard(rep, fns, "T8-nonempty", ("boost::gil::threshold_optimal", "boost::gil::median_filter", "boost::gil::detail::morph"), "obligations:T8")
+    spread_type(rep, fns)
     rep.floor("obligations:T8", 3)
     # ---------------------------------------------------------------- T6 staging in morph()
     rep.rule("T6 detail::morph(src, dst, ...): dilate/erode pass the same view as src and dst, so every channel is computed from src into the scratch image "
@@ -412,3 +413,56 @@ def rename(k, f):
 
 def canon_val(v, px):
     return "px" if v == px else v
+
+
+def spread_type(rep, fns):
+    """T9: Otsu scales the pixel's distance from the minimum by the spread max - min of the channel values to index its 256 bins. The spread of a signed channel type does
+    not fit that type (int8: up to 255, int16: up to 65535): narrowed back to it, it turns negative and the bin index leaves the histogram."""
+    from .ast.rules import _TYRANGE, _cty
+    rep.rule("T9 detail::otsu_impl: a difference of two values of the source channel type T that is converted to an integral type N (a declaration, an assignment, a cast) satisfies "
+             "max(N) >= max(T) - min(T): the spread max - min of a signed channel does not fit the channel type. Witness: max(T) - min(T)")
+    seen = set()
+    for f in fns:
+        if f["name"] != "boost::gil::detail::otsu_impl" or f.get("body") is None:
+            continue
+        g = R.canonize(f)
+        # the channel type of this instantiation: the type of the running extremes (locals compared with and assigned from a pixel channel)
+        bad = []
+        ndiff = 0
+        for x, _ in R.find(f["body"], lambda x: x.get("k") in ("ImplicitCast", "ExplicitCast") and x.get("from_c") is not None):
+            frm, to = _cty(x["from_c"]), _cty(x["to_c"])
+            e = x["e"]
+            while isinstance(e, dict) and e.get("k") == "Paren":
+                e = e["e"]
+            if not (isinstance(e, dict) and e.get("k") == "Binary" and e.get("op") == "-") or to not in _TYRANGE or frm not in _TYRANGE:
+                continue
+            # both operands of the difference are values of one narrower type T (promoted for the subtraction)
+            ts = []
+            for side in (e["l"], e["r"]):
+                n = side
+                while isinstance(n, dict) and n.get("k") in ("Paren", "ImplicitCast") and n.get("cast") in (None, "LValueToRValue", "NoOp", "IntegralCast"):
+                    if n.get("k") == "ImplicitCast" and n.get("cast") == "IntegralCast":
+                        ts.append(_cty(n["from_c"]))
+                        break
+                    n = n.get("e")
+                else:
+                    ts.append(_cty((n or {}).get("ctype") or (n or {}).get("type") or ""))
+            if len(ts) != 2 or ts[0] != ts[1] or ts[0] not in _TYRANGE:
+                continue
+            ndiff += 1
+            T = ts[0]
+            spread = _TYRANGE[T][1] - _TYRANGE[T][0]
+            if _TYRANGE[to][1] < spread:
+                bad.append({"difference": R.key(e)[:60], "of values of type": T, "stored as": to, "witness": "%d - (%d) = %d > %d" % (_TYRANGE[T][1], _TYRANGE[T][0], spread, _TYRANGE[to][1]), "line": x.get("line")})
+        chan = sorted({b["of values of type"] for b in bad}) or ["-"]
+        key = "T9:detail::otsu_impl:spread"
+        tag = (bool(bad), tuple(chan))
+        if tag in seen or (not bad and any(not t[0] for t in seen)):
+            continue
+        seen.add(tag)
+        rep.count("obligations:T9")
+        if bad:
+            rep.violation("T9-spread-type", key, R.fn_where(f), {"narrowed spreads": bad[:3], "example": "gray16s image with values -20000..20000: range = 40000 stored in a short is -25536, the bin index (px - min) * 255 / range is negative"})
+        else:
+            rep.ok("T9-spread-type", key, "%d channel differences, none narrowed below the spread of its type" % ndiff)
+    rep.floor("obligations:T9", 1)
